@@ -15,6 +15,8 @@ Decided (structural necessary conditions in cp_apr.py; thin by nature, see "Not 
           (one entry per outer iteration performed)
   KKT     KKT violations are maxima of absolute values (non-negative by construction)
   LOOP    outer / inner loops are bounded by maxiters / maxinneriters
+  KR      the dense Pi matrices (calculate_pi, tt_calcpi_prowsubprob) are Khatri-Rao products of all factors but one, listed in ascending
+          mode order and taken in reverse - the order of the unfolding they multiply (a cyclic listing gives a wrong Pi for middle modes)
   START   each solver iterates on a copy of the guess; cp_apr passes the guess on unchanged and returns that object
 Cross-reference: data and guess are not modified — C05 (AL-mut); printing does not change the result — C18.
 Not decided: non-negativity of the multiplicative update numerics, likelihood values, KKT values, "at least as
@@ -378,7 +380,7 @@ def phi_cover(prog: Program, res: Result) -> None:
 def check(prog: Program, res: Result, tier: str) -> None:
     res.explanation = __doc__.split("\n\n", 1)[1]
     res.assumptions = ["ktensor.normalize only re-parameterises (C08); tt_loglikelihood evaluates the Poisson log-likelihood of its arguments"]
-    res.floors = {"PROJ": 2, "OBJ": 3, "TRACE": 12, "KKT": 3, "LOOP": 5, "START": 4, "PHI": 1, "LL": 8, "DIV0": 4}
+    res.floors = {"PROJ": 2, "OBJ": 3, "TRACE": 12, "KKT": 3, "LOOP": 5, "START": 4, "PHI": 1, "LL": 8, "DIV0": 4, "KR": 2}
     proj(prog, res)
     phi_cover(prog, res)
     obj_order(prog, res)
@@ -387,6 +389,12 @@ def check(prog: Program, res: Result, tier: str) -> None:
     kkt(prog, res)
     start(prog, res)
     div_guard(prog, res)
+    # the dense Pi matrices: Khatri-Rao product of all factors but one, ascending and reversed (shared clause of C01 / C02)
+    from . import eo_common as E
+    pis = ("cp_apr.calculate_pi", "cp_apr.tt_calcpi_prowsubprob")
+    for f in pis:
+        prog.func(f)
+    E.kr(prog, res, lambda fi: fi.short in pis, exempt=set())
 
 
 # ------------------------------------------------------------------ LL: which entries contribute x*log(m)
